@@ -8,13 +8,13 @@ from hypothesis import strategies as st
 
 from .. import models as M
 from .. import rulespace as RS
-from ..drive import eval_rule, make_evaluable
+from ..drive import eval_rule, make_evaluable, reuse_aware
 
 ID = "C12"
 MOD = __name__
 
 RULE_TEXT = (
-    "Exhaustive part: tree T4 x every import relation over its candidate edges x every single subject/object pair of "
+    "Exhaustive part: tree T4P = r{a{x},ab,c} x every import relation over its candidate edges x every single subject/object pair of "
     "names (related and identical names included) x both filter kinds: all 12 shapes and both aliases are evaluated and "
     "the duality / negation / decomposition / alias laws checked; the verdict bit-vectors of all graphs are then compared "
     "for every single-edge addition (monotonicity). Random part: Hypothesis trees with batches of 1-3 subjects/objects "
@@ -96,6 +96,7 @@ def _touches(tree, imports, sides) -> bool:
     return any(u in dens or v in dens for u, v in imports)
 
 
+@reuse_aware
 def check_case(spec: dict) -> dict:
     tree, imports = spec["tree"], [tuple(e) for e in spec["imports"]]
     subj, obj = spec["subj"], spec["obj"]
@@ -226,6 +227,8 @@ def cases(draw):
     if cand and draw(st.booleans()):
         hot = [e for e in cand if e[0] in focus or e[1] in focus]
         spec["extra_edge"] = list(draw(st.sampled_from(hot if hot and draw(st.booleans()) else cand)))
+    if draw(st.integers(0, 3)) == 0:
+        spec["warm"] = draw(RS.decoys(tree))
     return spec
 
 
@@ -235,9 +238,9 @@ def strategy(tier):
 
 def run(ctx) -> None:
     nsh = 64
-    part = ctx.exhaustive("T4-all-relations-1x1", MOD, "exh_shard", [("T4", i, nsh) for i in range(nsh)],
-                          "T4: all 2048 import relations x all 25 (subject, object) name pairs incl. related/identical x 4 kind pairs x 12 shapes + aliases")
+    part = ctx.exhaustive("T4-all-relations-1x1", MOD, "exh_shard", [("T4P", i, nsh) for i in range(nsh)],
+                          "T4P = r{a{x},ab,c} (a sibling name string-extends another): all 2048 import relations x all 25 (subject, object) name pairs incl. related/identical x 4 kind pairs x 12 shapes + aliases")
     if not part.truncated:
-        monotone_from_payload(ctx, "T4", part.payload)
+        monotone_from_payload(ctx, "T4P", part.payload)
     ctx.stats.payload = {}
     ctx.random("random-batches", MOD, "strategy", "check_case", 6000 if ctx.tier == "quick" else 150000)
